@@ -89,6 +89,7 @@ type RaceObs struct {
 	LateSeq       uint64 `json:"first_late_send_seq,omitempty"`
 	DuringDrain   int    `json:"datagrams_during_drain,omitempty"` // handed to Bind.Send between "remove issued" and "remove returned"
 	WaitMillis    int    `json:"wait_ms,omitempty"`
+	ReturnedEarly bool   `json:"removal_returned_while_send_parked,omitempty"`
 }
 
 const unknownID = 9999
@@ -424,6 +425,82 @@ func (r *runner) do(a string) bool {
 		}
 		r.cur = id.id
 		r.record(Ev{K: "setkey", Pk: id.id}, r.w.Take(), unknownID)
+	case "setkeyconf": // setkeyconf new|same|peer P|old K  then sections: self | prev | <peer number> ...   (ONE set operation)
+		var id identity
+		i := 2
+		switch f[1] {
+		case "new":
+			id = identity{id: r.nextID, priv: ref.NewPrivate()}
+			id.pub = ref.PubOf(id.priv)
+			r.nextID++
+			r.idents = append(r.idents, id)
+		case "same":
+			id = *r.identByID(r.cur)
+		case "peer":
+			p := r.peers[arg(2)]
+			if p == nil {
+				r.skipped++
+				return true
+			}
+			id = identity{id: p.id, priv: p.priv, pub: p.pub}
+			if r.identByID(p.id) == nil {
+				r.idents = append(r.idents, id)
+			}
+			i = 3
+		case "old":
+			k := arg(2)
+			if k < 0 || k >= len(r.idents) {
+				r.skipped++
+				return true
+			}
+			id = r.idents[k]
+			i = 3
+		default:
+			r.skipped++
+			return true
+		}
+		prev := *r.identByID(r.cur)
+		cfg := "private_key=" + hex.EncodeToString(id.priv[:]) + "\n"
+		evs := []Ev{{K: "setkey", Pk: id.id}}
+		for ; i < len(f); i++ {
+			switch f[i] {
+			case "self": // a peer section carrying the device's own NEW public key, as `wg setconf` sends it
+				cfg += "public_key=" + hex.EncodeToString(id.pub[:]) + "\nendpoint=192.0.2.9:5009\nallowed_ip=10.0.4.0/24\n"
+				evs = append(evs, Ev{K: "add", Pk: id.id, Ep: true, Pfx: []int{4}})
+			case "prev": // a peer section carrying the identity the device had before this operation
+				cfg += "public_key=" + hex.EncodeToString(prev.pub[:]) + "\nendpoint=192.0.2.9:5009\n"
+				evs = append(evs, Ev{K: "add", Pk: prev.id, Ep: true, Pfx: []int{}})
+			default:
+				p := r.peers[arg(i)]
+				if p == nil {
+					continue
+				}
+				cfg += "public_key=" + hex.EncodeToString(p.pub[:]) + "\nendpoint=" + p.addr.String() + fmt.Sprintf("\nallowed_ip=10.0.%d.0/24\n", p.id)
+				evs = append(evs, Ev{K: "add", Pk: p.id, Ep: true, Pfx: []int{p.id}})
+			}
+		}
+		if !r.set(cfg) {
+			return false
+		}
+		r.cur = id.id
+		out := r.w.Take()
+		after := r.snapshotHs()
+		for k := range evs {
+			// the index a section made the device draw (handlePostConfig -> SendStagedPackets -> initiation)
+			if evs[k].K == "add" {
+				if v := after[evs[k].Pk]; v != 0 && r.hsBefore[evs[k].Pk] != v {
+					evs[k].Idx = v
+				}
+			}
+		}
+		for k, ev := range evs {
+			if k < len(evs)-1 {
+				// the state between two lines of one set operation is not observable
+				r.steps = append(r.steps, Step{Ev: ev, Obs: Obs{Outs: []Out{}, Itab: [][3]int64{}, Keys: []int{4294967295}, Rows: [][]uint64{}, Routes: [][2]int{}}})
+			} else {
+				r.record(ev, out, unknownID)
+			}
+		}
 	case "up":
 		done := make(chan struct{})
 		go func() { r.w.Dev.Up(); close(done) }()
@@ -631,10 +708,12 @@ var revocations = map[string][]string{
 	"setkey-onto-2":   {"setkey peer 2"},
 	"setkey-new-back": {"setkey new", "setkey old 0"},
 	"add-self":        {"setkey new", "add 4 ep 4", "setkey peer 4", "add 4 ep 4"},
+	"setconf-self":    {"setkeyconf new self"},
+	"setconf-mixed":   {"setkeyconf new 2 self prev 1", "setkeyconf old 0 self prev"},
 }
 
 var revOrder = []string{"remove", "remove-noep", "replace", "replace-readd", "remove-readd", "setkey-new", "setkey-same",
-	"setkey-onto-1", "setkey-onto-2", "setkey-new-back", "add-self"}
+	"setkey-onto-1", "setkey-onto-2", "setkey-new-back", "add-self", "setconf-self", "setconf-mixed"}
 
 var preamble = []string{"add 1 ep 1", "add 2 ep 2", "add 3 noep 3", "up", "tun 2", "respond 2 -1"}
 
@@ -718,6 +797,15 @@ func randomPlan(r *rand.Rand, n int) []string {
 				p = append(p, fmt.Sprintf("setkey old %d", r.Intn(3)))
 			default:
 				p = append(p, "setkey new")
+			}
+			if r.Intn(3) == 0 {
+				// the same as ONE set operation with peer sections, one of them the device's own new key
+				last := p[len(p)-1]
+				sec := []string{"self", "prev", "1", "2", "self 3"}[r.Intn(5)]
+				p[len(p)-1] = strings.Replace(last, "setkey ", "setkeyconf ", 1) + " " + sec
+				if r.Intn(2) == 0 {
+					p[len(p)-1] += " self"
+				}
 			}
 		case x < 94:
 			p = append(p, "down")
@@ -960,6 +1048,108 @@ func drainStart(wait time.Duration) func() Case {
 	}
 }
 
+// ---------------------------------------------------------------- removal while a timer callback is sending
+
+// timerCallbackStart: the device initiates toward peer 1 and gets no answer.  About RekeyTimeout (+ jitter) later the
+// retransmission timer's callback sends a new initiation; its Bind.Send is parked by the SendGate (a slow socket).
+// remove=true is then issued in a goroutine.  Peer.Stop must wait for the running callback (Timer.DelSync), so the
+// removal cannot return before the gate is released 200 ms later and the callback's datagram has left.  A datagram
+// that leaves the (simulated) socket with a global sequence number after "removal returned" is the violation; whether
+// the removal returned while the Send was still parked is recorded as well.  The tail runs in its own goroutine (it
+// never uses the quiescence detector, which is not re-entrant) and delivers the case on the returned channel.
+func timerCallbackStart() <-chan Case {
+	ch := make(chan Case, 1)
+	c := Case{Mode: 1, Gen: "timer-callback:retransmit", Plan: []string{"timercallback"}}
+	r, err := newRunner()
+	if err != nil {
+		c.Stuck = err.Error()
+		ch <- c
+		return ch
+	}
+	for _, a := range []string{"add 1 ep 1", "up", "tun 1"} {
+		r.do(a)
+	}
+	p := r.peers[1]
+	entered := make(chan struct{})
+	release := make(chan struct{})
+	var armed atomic.Bool
+	r.w.Bind.TakeSent()
+	r.w.Bind.SendGate = func(bufs [][]byte, to netip.AddrPort) {
+		if to == p.addr && len(bufs) == 1 && len(bufs[0]) == ref.InitiationSize && bufs[0][0] == ref.TypeInitiation &&
+			armed.CompareAndSwap(true, false) {
+			close(entered)
+			<-release
+		}
+	}
+	armed.Store(true)
+	go func() {
+		select {
+		case <-entered:
+		case <-time.After(8 * time.Second):
+			armed.Store(false)
+			c.Skipped = 1 // the retransmission never came: inconclusive
+			go r.w.Close()
+			ch <- c
+			return
+		}
+		var removed atomic.Uint64
+		done := make(chan struct{})
+		go func() {
+			r.w.Dev.IpcSet("public_key=" + hex.EncodeToString(p.pub[:]) + "\nremove=true\n")
+			removed.Store(sim.Seq.Add(1))
+			close(done)
+		}()
+		early := false
+		select {
+		case <-done:
+			early = true
+		case <-time.After(200 * time.Millisecond):
+		}
+		close(release)
+		select {
+		case <-done:
+		case <-time.After(10 * time.Second):
+			c.Stuck = "remove=true did not return"
+			ch <- c
+			return
+		}
+		time.Sleep(150 * time.Millisecond)
+		rem := removed.Load()
+		var late []sim.Sent
+		var lateSeq uint64
+		for _, s := range r.w.Bind.TakeSent() {
+			if s.To == p.addr && s.Seq > rem {
+				late = append(late, s)
+				if lateSeq == 0 {
+					lateSeq = s.Seq
+				}
+			}
+		}
+		obs := r.observe(cosim.Out{Sent: late}, unknownID)
+		ghosts := 0
+		keys := map[int]bool{}
+		for _, k := range obs.Keys {
+			keys[k] = true
+		}
+		for _, e := range obs.Itab {
+			if !keys[int(e[1])] {
+				ghosts++
+			}
+		}
+		c.Race = &RaceObs{Kind: "timer-callback", Ghosts: ghosts, LateDatagrams: len(late), RemovedSeq: rem, LateSeq: lateSeq, ReturnedEarly: early}
+		c.Steps = append(r.steps, Step{Ev: Ev{K: "remove", Pk: 1}, Obs: obs})
+		finished := make(chan struct{})
+		go func() { r.w.Close(); close(finished) }()
+		select {
+		case <-finished:
+		case <-time.After(10 * time.Second):
+			c.Stuck = "Close did not return"
+		}
+		ch <- c
+	}()
+	return ch
+}
+
 // ---------------------------------------------------------------- removal between two packets of one TUN batch
 
 // insideBatch: the device is built here with a harness-owned device.Logger whose Verbosef performs the removal when
@@ -1167,6 +1357,7 @@ func main() {
 	length := flag.Int("len", 45, "actions per random scenario")
 	grid := flag.Bool("grid", true, "run the life-cycle x revocation grid")
 	race := flag.Int("race", 0, "rounds of the concurrent variant (per kind)")
+	timerRounds := flag.Int("timercb", 2, "rounds of the removal-while-the-retransmission-callback-is-sending scenario (about 5.5 s each, concurrent)")
 	inside := flag.Int("inside", 2, "rounds (per kind) of the removal-between-two-packets-of-one-TUN-batch scenario")
 	drain := flag.Int("drain", 3, "rounds of the removal-while-sender-busy scenario (each stays alive for -drainwait)")
 	drainWait := flag.Duration("drainwait", 5600*time.Millisecond, "how long a drain scenario waits for timers after the removal returned")
@@ -1181,6 +1372,14 @@ func main() {
 	var cases []Case
 	runIn := func(cs []Case, gen string) {
 		for _, c := range cs {
+			if len(c.Plan) == 1 && strings.HasPrefix(c.Plan[0], "timercallback") {
+				rc := <-timerCallbackStart()
+				if gen != "" {
+					rc.Gen = gen
+				}
+				cases = append(cases, rc)
+				continue
+			}
 			if len(c.Plan) == 1 && strings.HasPrefix(c.Plan[0], "insidebatch") {
 				f := strings.Fields(c.Plan[0])
 				how := "remove"
@@ -1252,6 +1451,10 @@ func main() {
 				}
 			}
 		}
+		var timerCh []<-chan Case
+		for i := 0; i < *timerRounds; i++ {
+			timerCh = append(timerCh, timerCallbackStart())
+		}
 		var pending []func() Case
 		for i := 0; i < *drain; i++ {
 			pending = append(pending, drainStart(*drainWait))
@@ -1275,6 +1478,9 @@ func main() {
 		}
 		for _, f := range pending {
 			cases = append(cases, f())
+		}
+		for _, ch := range timerCh {
+			cases = append(cases, <-ch)
 		}
 	}
 	if *shards > len(cases) {
